@@ -97,6 +97,15 @@ def wellformed(root, title, check_placeholders=True, stats=None):
                 P("definition-on-non-item", n)
             chk_list(n.definition, "definition", n, k, depth)
         # per-kind field shapes (from the NodeKind docstrings)
+        if k in (K.TEMPLATE, K.PARSER_FN) and hasattr(n, "template_parameters"):
+            # the documented accessors of a template node must work on every tree parse() returns
+            try:
+                tp = n.template_parameters
+                nm = n.template_name
+                if not isinstance(tp, dict) or not isinstance(nm, str):
+                    P("template-accessor-type", n)
+            except Exception as e:
+                P("template-accessor-raises:%s" % type(e).__name__, n)
         if k in ARGK:
             if n.sarg != "":
                 P("sarg-on-args-kind", n)
